@@ -79,7 +79,7 @@ def REQUIRED(tier):
         "mirror.centres-judged": 80, "mirror.fragments-with-marks": 20,
         "handedness.absolute-judged": 100,
         "variant.permute.compared": 100, "variant.translate.compared": 100, "variant.renumber.compared": 100,
-        "variant.reorder.compared": 100,
+        "variant.reorder.compared": 100, "variant.lone-atoms.compared": 50,
         "determinism.same-object": 100, "determinism.same-object-after-edit": 100, "determinism.cold-object": 100, "determinism.reseeded": 100,
         "determinism.fresh-process": 100,
         "reach.3dify.ring": 20, "reach.3dify.acyclic": 20, "reach.3dify.bold-hash": 5, "reach.nested-join": 20,
@@ -131,7 +131,9 @@ def plan(tier, seed):
         add(f, [[["permute"], k] for k in range(3)]
             + [[["translate"], 0], [["translate"], 1], [["permute", "translate", "renumber:shuffle"], 100]]
             + [[["reorder"], 0], [["reorder"], 1], [["reorder", "mirror"], 2],
-               [["reorder", "permute", "translate", "renumber:shuffle"], 3]])
+               [["reorder", "permute", "translate", "renumber:shuffle"], 3]]
+            # fragments without bonds (lone ions) elsewhere on the page: every label still names its own fragment
+            + [[["lone-atoms"], 0], [["lone-atoms", "permute"], 1]])
         add(f, [[["renumber:" + st], 0] for st in styles] + [[["translate@" + w], 0] for w in WITNESS_TRANSLATIONS])
         if f in sweep:
             # translation sweep over the fragments that bend a substituent inside an already bent part: there the
@@ -291,6 +293,7 @@ class Reach:
                 if isinstance(node.func.value, ast.Name) and node.func.value.id in ("Molecule", "Structure"):
                     wanted[node.lineno] = "reach.nested-join"
         wanted.pop(None, None)
+        self.found = set(wanted.values())
         if not wanted:
             return False
 
@@ -383,6 +386,8 @@ def build_variant(text, steps, vseed, ctx_rng):
         elif step == "permute":
             text = R.permute_page(text, rng)
             info["permuted"] = True
+        elif step == "lone-atoms":
+            text = R.insert_lone_atoms(text, rng)
         elif step == "translate":
             dx = rng.choice([-1, 1]) * rng.randrange(0, 4000) / 4.0
             dy = rng.choice([-1, 1]) * rng.randrange(0, 4000) / 4.0
@@ -445,6 +450,9 @@ def run_chunk(spec, ctx):
     reach = Reach(ctx)
     reach_ok = reach.install()
     ctx.count("reach.installed", 1 if reach_ok else 0)
+    for name in ("reach.3dify.ring", "reach.3dify.acyclic", "reach.3dify.bold-hash", "reach.nested-join"):
+        if name not in getattr(reach, "found", ()):
+            ctx.count(name + ".anchor-not-found")     # no statement of that shape in the current source
     try:
         env = (ctx, np, ml, CDXMLFile, R, snap, diff)
         _run(spec, env, file, src, text0)
@@ -920,7 +928,7 @@ def check_same_fragment(ctx, np, snap, diff, file, lb, m0, m1, o0, o1, info, vna
         for a0, a1 in zip(s0["atoms"], s1["atoms"]):
             if isinstance(a0["label"], str) and a0["label"] in idmap and a1["label"] == idmap[a0["label"]]:
                 a1["label"] = a0["label"]
-    for k in ("permute", "translate", "renumber"):
+    for k in ("permute", "translate", "renumber", "lone-atoms"):
         if k in vname:
             ctx.count(f"variant.{k}.compared")
     if vname == "translate" and vseed >= 1000:
